@@ -212,14 +212,24 @@ each (all 289 pairs), observed through for_url on three probe hosts and both sch
                 let p_http = url::Url::parse("http://p-http.test:3128").unwrap();
                 let p_https = url::Url::parse("http://p-https.test:3129").unwrap();
                 let mut b = attohttpc::ProxySettings::builder();
+                // the builder calls commute: half of the cases name the exempted hosts before the proxies
+                let entries_first = (host.len() + ents.len() + *scheme as usize + *proxies as usize) % 2 == 1;
+                if entries_first {
+                    for e in &ents {
+                        b = b.add_no_proxy_host(e.as_str());
+                    }
+                    ctx.label("builder:no-proxy-hosts-named-before-the-proxies");
+                }
                 if proxies & 1 != 0 {
                     b = b.http_proxy(p_http.clone());
                 }
                 if proxies & 2 != 0 {
                     b = b.https_proxy(p_https.clone());
                 }
-                for e in &ents {
-                    b = b.add_no_proxy_host(e.as_str());
+                if !entries_first {
+                    for e in &ents {
+                        b = b.add_no_proxy_host(e.as_str());
+                    }
                 }
                 let settings = b.build();
                 let sch = ["http", "https", "ftp"][*scheme as usize % 3];
@@ -345,6 +355,21 @@ each (all 289 pairs), observed through for_url on three probe hosts and both sch
                     }
                 }
                 let settings = attohttpc::ProxySettings::from_env();
+                // a session or request created now starts from the environment as it is now (not as it was earlier in the process)
+                {
+                    let want = format!("{settings:?}");
+                    let s1 = attohttpc::Session::new().verif_settings().proxy_settings;
+                    let s2 = attohttpc::get("http://c.example/").verif_settings().proxy_settings;
+                    if s1 != want || s2 != want {
+                        for v in VARS.iter().chain(["no_proxy", "NO_PROXY"].iter()) {
+                            std::env::remove_var(v);
+                        }
+                        return Outcome::fail(
+                            "C11:env:default-settings-stale",
+                            format!("ProxySettings::from_env() = {want}, but Session::new() carries {s1} and attohttpc::get() carries {s2} (environment {assignments:?})"),
+                        );
+                    }
+                }
                 for v in VARS.iter().chain(["no_proxy", "NO_PROXY"].iter()) {
                     std::env::remove_var(v);
                 }
